@@ -12,336 +12,313 @@ Definition show_fres (r : fres) : string :=
   end.
 Definition check (rs : list rune) : string := digest (show_fres (format_res rs)).
 Definition full (rs : list rune) : string := show_fres (format_res rs).
-Eval vm_compute in ("<<<M41>>>" ++ check (runes_of_ascii "  root packet u{ match crc as
-leftPad { [ 00 ] : //
-o,  42
-    /// triple
-    :
-// trailing space 
-//x
-crc [
-""a	b"" ,
-""CRC32"" , ""a\""b"" , ""\n""
-, 0
-, 255 ] : // packet A { u8 x, }
-zchar ,
-// " ++ [128512]%N ++ runes_of_ascii " emoji
-//
-} //	t
-,	string stringy
-    @lengthOf(matchKey ),
-    int ,@tag(
-1)repeat	zchar[ 4294967296] roots , @leftPad ( '\x00'	) x
-    //x
-    @lengthOf( crc ), } packet// c
-repeatCount { zchar[ 255]	f32a	@calculatedFrom(
-    ""x y"" )
-,@tag(
-    255) char[] asx
-@calculatedFrom(""" ++ [28040; 24687]%N ++ runes_of_ascii """
-    // " ++ [27880; 37322]%N ++ runes_of_ascii "
-    ) , leftPad{
-/// triple
-// a // b
-repeat int u8x ,
-i64
-trueish	@lengthOf(	i8i8 ) `" ++ [28040; 24687; 31867; 22411]%N ++ runes_of_ascii "`
-    // a // b
-    ,
-repeat
-int64 //	t
-pack
-    , } ,
-    match float as o { //
-65535
-:
-Pad ,[
-""" ++ [128512]%N ++ runes_of_ascii """ , """ ++ [28040; 24687]%N ++ runes_of_ascii """,
-    0123456789 ]
+Eval vm_compute in ("<<<M146>>>" ++ check (runes_of_ascii "MetaData
+chars {	int8 Z9_,	float rootA	`tab	here`// @lengthOf(
+,
 //x
 // @lengthOf(
-:i8i8
-, 7 :
-asx 00: stringy } ,@calculatedFrom(
-""" ++ [233]%N ++ runes_of_ascii "t" ++ [233]%N ++ runes_of_ascii """ ) f32a
-// packet A { u8 x, }
-// trailing space 
-u , repeat msg_type `" ++ [233]%N ++ runes_of_ascii "` ,
-repeat zchar[
-42 ]crc
-    , uint64
-    // " ++ [27880; 37322]%N ++ runes_of_ascii "
-    lengthOf , repeat As``
-    ,
-zchar[ 007 ] tag `tab	here`  , }	root packet charz
-{
-    string msg_type , @calculatedFrom( """") repeat//	t
-string  tag `tab	here`
-    ,repeat calculatedFrom ,
-repeat Foo, uint64
-Foo@lengthOf( packetx) ,
-@rightPad  ( )	match	falsey as calculatedFrom { [ 0 , 10
-    , ""a\""b"" ] : metadata ,
-} , @calculatedFrom( ""\" ++ [233]%N ++ runes_of_ascii """ )
-    i64  As ``,
-    @lengthOf(
-rootA) u32 Logon // c
-@lengthOf(a1  ) , @calculatedFrom( """" ) @leftPad ( ' '
+T o `it's` ,
+roots int , // c
+repeatCount MetaDataX, float32
+    falsey `say ""hi""`,} packet
+    msg_type
+{ repeat f32
+o // `tick` ""quote"" 'q'
+, @tag( 0
+)char[]  A	,  repeat char[] tag `say ""hi""` ,repeat char[ 0 ] Z9_ ,
+zchar[ 1 ] lengthOf ,
+i64 T , match float as
+leftPad {
+    007 : len /// triple
+, ""it's"" : len
+    , ""it's"" : // @lengthOf(
+float
+    [ 255 ,
+00
+, ""abc"", ""abc""
+,
+1
+, """ ++ [28040; 24687]%N ++ runes_of_ascii """ // `tick` ""quote"" 'q'
+, ""x y"" , """" // a // b
+] :	_x ,
+    """" : len ,""\" ++ [233]%N ++ runes_of_ascii """  : // a // b
+i64_
+, //	t
+}, roots{ char[ 1
+]// @lengthOf(
+Header
+@lengthOf( x_y_z )
+    , body u128 , // `tick` ""quote"" 'q'
+char[]
+float ,chars@lengthOf( x  )
+    `doc` ,}
+,
+    crc `it's`
+    // `tick` ""quote"" 'q'
+    , @calculatedFrom(""" ++ [128512]%N ++ runes_of_ascii """
     )
-    uint16
-i8i8
-@calculatedFrom( ""// no comment""
-) ,  } root packet// trailing space 
-uint8x {
-    repeat f32
-chars `tab	here` ,}
-MetaData calculatedFrom
-{
-//
-// `tick` ""quote"" 'q'
-metadata crc , }
-
-")).
-Eval vm_compute in ("<<<M1594>>>" ++ check (runes_of_ascii "root packet u {
-    char[007] x_y_z `two words`,
-    int16 u8x @calculatedFrom(""packet""),
-    float64 falsey @calculatedFrom(""\" ++ [233]%N ++ runes_of_ascii """) `u8 x,`,
-    trueish @calculatedFrom(""" ++ [233]%N ++ runes_of_ascii "t" ++ [233]%N ++ runes_of_ascii """) `tab	here`,
-    @tag(1)
-    repeat char[4294967296] u,
-    match i8i8 as o {
-        [""a\\""] : matchKey,
-        [
-            0123456789, 0, 00, 007, ""x y"",
-            ""a	b"", ""{,}"", ""{,}""
-        ] : u8x,
-        255 : u128,
-        [0123456789, 65535, """ ++ [28040; 24687]%N ++ runes_of_ascii """, ""\n""] : _x,
-        7 : falsey,
-    },
-    @leftPad()
+    BodyLength `" ++ [28040; 24687; 31867; 22411]%N ++ runes_of_ascii "` , }
+    packet
+    u128{  lengthOf ,pack
+@lengthOf( u8x// c
+)`// not a comment`// " ++ [27880; 37322]%N ++ runes_of_ascii "
+,@leftPad
+    (
+' ' ) float{match
+    asx as
+    charz
+{ [ 4294967296,""""
+, 255 ,42
+    ,""1""  ] : u8x ""{,}""	: Foo 42  :
+leftPad[ // trailing space 
+255 ,
     // " ++ [128512]%N ++ runes_of_ascii " emoji
-    charz @lengthOf(A),// `tick` ""quote"" 'q'
+    ""a\""b"" , ""it's""  , 4294967296 ] : stringy , 3
+:Header ,
+} ,match o // `tick` ""quote"" 'q'
+as
+    Pad
+    // trailing space 
+    { 3 :
+    i64_//x
+, } ,repeat
+    string msg_type ,
+    match
+packetx // " ++ [27880; 37322]%N ++ runes_of_ascii "
+as
+lengthOf
+    { [ ""x y"","""" ]
+:x_y_z
+// " ++ [27880; 37322]%N ++ runes_of_ascii "
+// c
+}, } ,i64 float,repeat
+    zchar[ 3  ] rootA
+    `crlf
+line`, match msg_type as len{
+""CRC32"":
+MetaDataX
+,
+} ,
+    f32
+A , char[
+0123456789 ] chars// " ++ [27880; 37322]%N ++ runes_of_ascii "
+`{ , }` , /// triple
+@calculatedFrom( ""a\""b""
+) string
+string_
+    `" ++ [233]%N ++ runes_of_ascii "` ,}
+")).
+Eval vm_compute in ("<<<M1478>>>" ++ check (runes_of_ascii "options {
+    StringPrefixLenType = u16;// c5a
+    // c5b
+    ArrayPrefixLenType = u32;
+    // c9
+    FixedStringPadFromLeft = true;// c13
+    FixedStringPadChar = '0';// c17
+}// c18
+
+packet Cancel {
 }
 
-root packet stringy {
-    repeat MetaDataX {
-        float32 T,
-        string x_y_z `a\`,
-        repeat _x zchar `u8 x,`,
+packet Party {
+}
+
+// c26
+packet Logon {
+}
+
+packet Ack {
+}
+
+// c34
+packet Logout {
+    repeat InSym87 {
+        InClordid94 {
+            // c42
+            string clOrdID,// c45a
+        },
+        // c47
+        string Px,
+        // c50
+        i16 Qty,
+        // c53
+        repeat InCount71 {
+            // c56
+            repeat Cancel,
+            // c59
+            uint16 Tail,
+            // c62
+            char[2] x,
+            // c67
+            repeat string Ref,
+        },
+        // c73
+        Cancel,// c75a
+    },// c77
+}
+
+// c78
+root packet Order {
+    repeat string tag7,
+    @leftPad(' ')
+    // c90a
+    // c90b
+    char[3] Px,
+    // c95
+    u8 Qty,
+    // c98
+    match Qty as Body {
+        // c103
+        [
+            28,
+            62
+        ] : Logon,
+        148 : Ack,
+        // c115
+        88 : Party,
+        184 : Cancel,
+        // c123a
+    },// c125
+    u16 Note @calculatedFrom(""CRC32""),
+}// c132")).
+Eval vm_compute in ("<<<M1701>>>" ++ check (runes_of_ascii "root packet crc {
+    @lengthOf(As)
+    @calculatedFrom(""\" ++ [233]%N ++ runes_of_ascii """)
+    zchar[4294967296] MetaDataX `doc`,/// triple
+    rootA @calculatedFrom(""it's""),
+    @tag(65535)
+    @tag(7)
+    @tag(00)
+    len @lengthOf(A) `two words`,
+    // trailing space 
+    // " ++ [128512]%N ++ runes_of_ascii " emoji
+    string rootA @lengthOf(pack),
+    // " ++ [128512]%N ++ runes_of_ascii " emoji
+    // trailing space 
+    repeat zchar,
+    @calculatedFrom(""abc"")
+    @leftPad('\x00')
+    @rightPad()
+    match x_y_z as Z9_ {
+        ""it's"" : Logon,
+        ""x y"" : Packet,
+        ""abc"" : trueish,
+        4294967296 : repeatCount,
+        """ ++ [128512]%N ++ runes_of_ascii """ : x_y_z,
     },
+    char[10] stringy `it's`,
+    @leftPad('\x00')
+    rootA @lengthOf(i64_),
+}
+
+MetaData falsey {
+    Packet repeatCount `tab	here`,
+}
+
+MetaData string_ {
+    float64 roots `line1
+        line2`,
+    char As `
+        `,
+    zchar[65535] falsey `a\`,
+    A T,
+    _x metadata,
+}
+
+packet _x {
+    zchar[255] string_ @lengthOf(u128) `{ , }`,
+}
+
+root packet Packet {
+    repeat lengthOf,
+}")).
+Eval vm_compute in ("<<<M1640>>>" ++ check (runes_of_ascii "options {
+    string_ = false;
+    falsey = char[4294967296];
+}
+
+packet zchar {
+    match float as len {
+        [""" ++ [233]%N ++ runes_of_ascii "t" ++ [233]%N ++ runes_of_ascii """] : matchKey,
+        3 : u,
+        [4294967296, ""1""] : zchar,
+    },
+}
+
+MetaData T {
+}
+
+packet packetx {
+    uint16 uint8x @calculatedFrom(""it's""),
+    stringy {
+        i16 crc `{ , }`,
+    },
+    zchar[00] x,
+    zchar {
+        uint64 tag,
+        zchar f32a `say ""hi""`,
+        uint32 A `{ , }`,
+        match _x as falsey {
+            [007, """ ++ [128512]%N ++ runes_of_ascii """] : matchKey,
+            // " ++ [128512]%N ++ runes_of_ascii " emoji
+            [0123456789, 3] : T,
+            // " ++ [128512]%N ++ runes_of_ascii " emoji
+            // `tick` ""quote"" 'q'
+            1 : Foo,
+        },// trailing space 
+    },
+    A,
+    zchar[4294967296] string_ @lengthOf(float),
+    match rootA as As {
+        [
+            255, 0123456789, ""it's"", """ ++ [233]%N ++ runes_of_ascii "t" ++ [233]%N ++ runes_of_ascii """, ""{,}"",
+            ""abc"", """ ++ [233]%N ++ runes_of_ascii "t" ++ [233]%N ++ runes_of_ascii """
+        ] : int,
+        4294967296 : tag,
+    },
+}")).
+Eval vm_compute in ("<<<M1408>>>" ++ check (runes_of_ascii "packet leftPad {
+    //
+    i8 stringy @calculatedFrom(""" ++ [128512]%N ++ runes_of_ascii """),
+    int @calculatedFrom(""a	b"") `it's`,
+    @leftPad()
+    @tag(0123456789)
+    int32 u8x,
+    @lengthOf(A)
+    float64 u128 @calculatedFrom(""a\\""),//x
+}
+
+options {
+    //x
+    Pad = 0
+    u = ' '
+}
+
+MetaData a1 {
+    char[] metadata `// not a comment`,
 }
 
 packet Foo {
+    @tag(42)
+    repeat BodyLength,
+    int8 metadata `{ , }`,
+    @leftPad()
+    @calculatedFrom(""`tick`"")
+    @calculatedFrom(""a	b"")
+    u32 stringy,
     @lengthOf(roots)
-    calculatedFrom a1,
-    zchar[0123456789] _x,
-    // @lengthOf(
-    // trailing space 
-    match roots as MetaDataX {
-        /// triple
-        42 : _x,
-        3 : msg_type,
-        7 : a1,
-        """" : i8i8,
-        //x
-        [""" ++ [233]%N ++ runes_of_ascii "t" ++ [233]%N ++ runes_of_ascii """] : i8i8,
-        00 : leftPad,
+    zchar[0] msg_type @lengthOf(i64_) `tab	here`,
+    i8 Header `{ , }`,
+    char[7] trueish @lengthOf(packetx),
+    u64 charz `
+        `,
+    zchar[65535] repeatCount `it's`,
+    match calculatedFrom as calculatedFrom {
+        ""a	b"" : roots,
+        42 : MetaDataX,
     },
-    @calculatedFrom("""")
-    char[00] Foo @lengthOf(uint8x),
-    f32 chars,
-}
-
-packet metadata {
-}
-
-MetaData i64_ {
-    lengthOf options1,
-    a1 A,
-    x Header,
 }")).
-Eval vm_compute in ("<<<M1852>>>" ++ check (runes_of_ascii "packet crc	{ 
-@tag( 0
-    )
-@calculatedFrom( ""{,}""  )
-
-    @rightPad
-(
-
-' ' ) 
-repeat
-
-uint8  lengthOf// a // b
-  ,  char[
-42 ]
-float
-	,	repeat a1  // packet A { u8 x, }
-{ 
-match
-x_y_z
-
-    as charz {
-	[  00,	4294967296
-
-    ,
-    //x
-  // a // b
-  ""it's"",
-	""" ++ [28040; 24687]%N ++ runes_of_ascii """ 
-] 
-: //x
-	zchar ,
-
-[  ""packet""
-,	// c
-    ""x y""
-    ,  ""it's"",  ""abc""
-,""it's""
-
-    ]:  string_ , 0:
-	Z9_  } 
-// `tick` ""quote"" 'q'
-, // `tick` ""quote"" 'q'
-
-} 
-, match
-    u8x
-as 	 //x
-  pack {	[
-	0123456789
-	,
-    ""x y"" ]:// c
-    	trueish  /// triple
-      ,} ,@calculatedFrom( ""a\""b""
-    // c
-
-) 
-repeat
-
-    string_	`a\`,
-	packetx
-@calculatedFrom( ""`tick`""
-
-) ,
-	int64	chars 
-`say ""hi""`
-	, @calculatedFrom(  ""a	b"" ) 
-@leftPad
-
-( 
-'\x00'
-
-    )
-@lengthOf(
-
-repeatCount ) u64
-falsey@calculatedFrom(  ""\" ++ [233]%N ++ runes_of_ascii """ )
-,
-	repeat	Header 
-{
-
-repeat metadata
-,char[]
-
-    chars
-`" ++ [28040; 24687; 31867; 22411]%N ++ runes_of_ascii "` , 
-zchar[ 10 
-]
-x_y_z
-    `a\`  , }
-,
-
-// trailing space 
-// c
-		} ")).
-Eval vm_compute in ("<<<M379>>>" ++ check (runes_of_ascii "root
-    packet i64_ { trueish ,
-@calculatedFrom(""abc"") @tag( 7 )
-    // c
-    int16
-    asx
-, @calculatedFrom( ""a\\"" ) float32 crc
-@lengthOf(
-Foo ) ,	@tag( // `tick` ""quote"" 'q'
-42 // c
-) zchar[
-// c
-// packet A { u8 x, }
-7 ] asx @lengthOf( calculatedFrom) `// not a comment` , //
-repeat zchar[ 1]// a // b
-As ,	chars `two words` , @calculatedFrom( ""1"" )
-@tag(
-    // `tick` ""quote"" 'q'
-    0123456789 ) @leftPad ('0')
-    repeat
-    char[] BodyLength `tab	here`, } MetaData u128 // packet A { u8 x, }
-{
-u16 i64_
-,
-    float32 asx//
-`two words` ,//
-i64
-leftPad, zchar[ 00 // `tick` ""quote"" 'q'
-] _x
-    , //
-} MetaData chars
-    //
-    {Foo crc
-`say ""hi""` , uint8 u`two words` , // " ++ [128512]%N ++ runes_of_ascii " emoji
-f32
-pack
-`crlf
-line`, string _x `" ++ [233]%N ++ runes_of_ascii "`  , } packet x_y_z{ } options { calculatedFrom = ""CRC32"" crc
-    = uint16 ; u =
-false
-    Foo
-=
-    char  } // " ++ [128512]%N ++ runes_of_ascii " emoji")).
-Eval vm_compute in ("<<<M330>>>" ++ check (runes_of_ascii "root packet
-As {
-} MetaData Pad { string
-    metadata  `// not a comment` ,
-    }
-packet metadata
-    { string	charz
-`a\` , @leftPad ( ' ' )pack@lengthOf(x_y_z ), @calculatedFrom( ""packet"")
-match crc
-    as chars { [ ""packet"" ,7 ]
-    :  repeatCount }
-, Pad @lengthOf( matchKey
-    ),
-@calculatedFrom( ""\n""
-    )int64
-    Z9_ @lengthOf(
-    // a // b
-    _x ),
-@lengthOf(repeatCount// trailing space 
-) repeat float
-{ u128 @lengthOf( zchar) , u8 crc
-, } ,
-    int64 pack, u128
-    `it's` , repeat
-// a // b
-// `tick` ""quote"" 'q'
-i32 T , //	t
-@tag(00 ) rootA  @lengthOf(
-float
-    )
-,
-} MetaData Header // @lengthOf(
-{u32 u,	string A `crlf
-line` ,
-u16
-    roots `a\` ,int16 chars , }
-packet repeatCount { repeat char[
-// trailing space 
-//x
-65535]
-    x `line1
-line2`
-, }")).
-Eval vm_compute in ("<<<M1643>>>" ++ check (runes_of_ascii "options {
+Eval vm_compute in ("<<<M1665>>>" ++ check (runes_of_ascii "options {
     StringPrefixLenType = u8;
     ArrayPrefixLenType = u32;
     FixedStringPadFromLeft = true;
@@ -384,325 +361,332 @@ root packet Reject {
         183 : Logout,
         40 : Order,
     },
-    u16 Ref @calculatedFrom(""CRC32""),
+    u16 Ref @calculatedFrom(""CR\
+        C32""),
 }")).
-Eval vm_compute in ("<<<M342>>>" ++ check (runes_of_ascii "root packet Z9_	{  repeat i8i8 int`// not a comment`
-,	uint8x
-    // c
-    , f64 i8i8  `tab	here` ,@tag(
-3 ) @tag( 3 ) @tag( /// triple
-10
-// trailing space 
-// trailing space 
-) repeat int{ MetaDataX // " ++ [27880; 37322]%N ++ runes_of_ascii "
-,} , @tag( 10
-    ) int8
-    pack@lengthOf(x
-    ), Logon ,	@tag( 00
-) repeat
-rootA
-uint8x ,  @calculatedFrom( ""\n"" // a // b
-) // `tick` ""quote"" 'q'
-@lengthOf( len )
-// @lengthOf(
-// `tick` ""quote"" 'q'
-BodyLength  { matchKey f32a
-//x
-// `tick` ""quote"" 'q'
-`say ""hi""` ,} ,  char[] leftPad `{ , }` ,
-@lengthOf( float )match repeatCount as	o { 255 : matchKey ,
-    // " ++ [128512]%N ++ runes_of_ascii " emoji
-    00:	A 007 :
-    options1 } , }
-")).
-Eval vm_compute in ("<<<M1547>>>" ++ check (runes_of_ascii "options
-	{
-	rootA	=4294967296 ;	falsey=
-
-""a\""b""
-; As=
-// @lengthOf(
-  /// triple
-	""""
-    ; 
-packetx
-
-= ""packet"" i8i8=
-
-    true 
-;} 	 // `tick` ""quote"" 'q'
-  packet
-
-    x
-{  repeat
-
-    zchar rootA ,
-	char[]
-pack`// not a comment`
-
-,
-
-    @tag(
-00
-
-)
-
-@tag(
-0123456789 
-)
-u
-@calculatedFrom( ""packet""
-)
-`u8 x,`	,Header
-    {
-zchar[
-
-00 
-]
-
-    body
-
-    ,
+Eval vm_compute in ("<<<M184>>>" ++ check (runes_of_ascii "packet options1{@leftPad	( '0' )	@rightPad ( // a // b
+'\x00'
+) @tag(
+255
+) /// triple
+repeat string As `
+`,
+@calculatedFrom(
+"""" )@calculatedFrom(//x
+""x y"" )
 a1
-@calculatedFrom(// " ++ [128512]%N ++ runes_of_ascii " emoji
-""it's""
-) 
-`" ++ [233]%N ++ runes_of_ascii "`
-
+{ Foo {trueish { tag
+@lengthOf(  i8i8 ) `doc`
 , }
-,	}// " ++ [27880; 37322]%N ++ runes_of_ascii "
-  MetaData A // a // b
-
-{zchar /// triple
-matchKey 
-``	,
-	int64
-metadata	,
-char[]  _x 	 //	t
-    	,} ")).
-Eval vm_compute in ("<<<M210>>>" ++ check (runes_of_ascii "MetaData tag {
-//
-//
-char[// a // b
-3 ] // a // b
-msg_type
-    // c
-    , char[7 ] options1
-,
-    // trailing space 
-    float crc
-,calculatedFrom pack ,int64 u  `a\`,}
-packet leftPad{char[
-    1
+, zchar[
+00 ] f32a @lengthOf( calculatedFrom) , repeat
+zchar[ 1
+    ] stringy`{ , }`
+    , },uint64  repeatCount	@lengthOf(// `tick` ""quote"" 'q'
+asx
+    ) , char[ 42
+] lengthOf @calculatedFrom(// c
+""packet""), char[ 10 ] calculatedFrom @lengthOf( BodyLength ), } ,
+asx`// not a comment`,  } options { matchKey =""" ++ [128512]%N ++ runes_of_ascii """ falsey = ""a\""b"" ; A // a // b
+= ""CRC32"" msg_type
+    =
+    //x
+    """ ++ [233]%N ++ runes_of_ascii "t" ++ [233]%N ++ runes_of_ascii """	; } MetaData o//	t
+{
+} packet
+Pad{  }")).
+Eval vm_compute in ("<<<M1312>>>" ++ check (runes_of_ascii "// top
+options // c0a
+  // c0b
+{ // c1a
+  // c1b
+FixedStringPadChar = // c3
+'0' ; } packet
+    // c7
+Q // c8
+{ // c9a
+  // c9b
+zchar[ // c10a
+  // c10b
+4 // c11
+] // c12
+z , // c14
+@rightPad ( // c16
+'\x00' ) // c18a
+  // c18b
+char[ 3 // c20a
+  // c20b
 ]
-    /// triple
-    zchar
-,
-    //
-    } packet crc { // c
-@lengthOf( packetx	) @lengthOf( asx)
-@lengthOf( packetx ) calculatedFrom {	f32 packetx	``
-// packet A { u8 x, }
-//x
-, },
-} options { Z9_
-= ""\" ++ [233]%N ++ runes_of_ascii """
-    // a // b
-    float = ' ' ; packetx = ""x y""
-    calculatedFrom  = int16
-    ;
-}")).
-Eval vm_compute in ("<<<M1366>>>" ++ check (runes_of_ascii "options {
-    LittleEndian = true;
-    StringPrefixLenType = u64;
-    ArrayPrefixLenType = u16;
+    // c21
+n ,
+    // c23
+char[
+    // c24
+5
+    // c25
+] // c26
+d // c27
+, } // c29a
+  // c29b
+root
+    // c30
+packet R
+    // c32
+{ // c33
+Q , // c35a
+  // c35b
+zchar[ 8 // c37
+] // c38
+top , // c40a
+  // c40b
+repeat
+    // c41
+zchar[
+    // c42
+2
+    // c43
+] // c44a
+  // c44b
+zs
+    // c45
+, // c46a
+  // c46b
+} // c47
+")).
+Eval vm_compute in ("<<<M1355>>>" ++ check (runes_of_ascii "options {
+    StringPrefixLenType = u8;
+    ArrayPrefixLenType = u8;
     FixedStringPadFromLeft = false;
     FixedStringPadChar = ' ';
 }
-packet Logon {
-    zchar[5] Side2,
+packet Ack {
+    char[] tag7,
 }
-root packet Logout {
-    repeat i64 Tail,
-    Logon,
-    repeat i16 OrderId,
-    char[] venue,
-    uint64 x,
-    repeat i16 count,
-    u8 Flags,
-    match Flags as Body {
-        25 : Logon,
+packet Reject {
+    InSym61 {
+        repeat Ack,
+        zchar[4] f1,
     },
-    u16 Qty @calculatedFrom(""CR\
-C32""),
+}
+packet Logout {
+    char[4] clOrdID,
+}
+root packet Cancel {
+    @leftPad(' ') char[10] price,
+    u8 x,
+    u32 venue @lengthOf(Body),
+    match x as Body {
+        [92, 175] : Logout,
+        26 : Reject,
+        144 : Ack,
+    },
+    u16 count @calculatedFrom(""CRC32""),
 }
 ")).
-Eval vm_compute in ("<<<M1449>>>" ++ check (runes_of_ascii "packet rootA {
-    @tag(0123456789)
-    options1 {
-        int32 uint8x `u8 x,`,
-        u8x {
-            match Header as metadata {
-                [10] : pack,
-            },
-        },
-        f64 chars,
-    },
-    @lengthOf(body)
-    u64 Z9_,
-}
-
-MetaData repeatCount {
-    zchar[10] string_,
-    f64 A,
-    u32 BodyLength,
-    zchar[00] uint8x,
-    trueish leftPad,
-    char[65535] rootA,
-}")).
-Eval vm_compute in ("<<<M235>>>" ++ check (runes_of_ascii "packet crc
-// a // b
-//x
-{	u128
-    packetx , // " ++ [128512]%N ++ runes_of_ascii " emoji
-match roots	as
-    //
-    falsey
-{ 0123456789 // a // b
-: Header ""packet""// a // b
-: // a // b
-Z9_	3 : A ,
-// trailing space 
-// a // b
-""a	b""  : roots 10
-:  _x
-, } , @tag( 255// a // b
-) match
-calculatedFrom  as	o {
-    255 : string_ """ ++ [28040; 24687]%N ++ runes_of_ascii """ : i64_
-,	} , }MetaData
-T
-{ float64 u	,} packet Pad { /// triple
-}
-")).
-Eval vm_compute in ("<<<M285>>>" ++ check (runes_of_ascii "packet zchar { @calculatedFrom(
-    ""packet"" )
-    @lengthOf( body ) @lengthOf(A )
-    repeat /// triple
-u128
-    { f32a
-chars `` , repeat x_y_z `tab	here`	, // c
-} , // " ++ [27880; 37322]%N ++ runes_of_ascii "
-repeat
-Logon {// " ++ [27880; 37322]%N ++ runes_of_ascii "
-u@calculatedFrom( // `tick` ""quote"" 'q'
-""// no comment"") //
-`two words` , char
-    u8x , uint32  uint8x  , } , int8
-    asx ``,}
-")).
-Eval vm_compute in ("<<<M1780>>>" ++ check (runes_of_ascii "// top
-  packet	// c0
-		Inner	// c1
-	{  // c2
-    u8 // c3a
-  // c3b
-
-a// c4
-    	,  
-  // c5
-
-}	// c6
-    root  // c7
-packet  // c8a
-  // c8b
-	P  // c9
-{  // c10a
-// c10b
-	repeat	// c11a
-// c11b
-Inner
-
-items 	 // c13
-  ,	// c14
-	  u8 
-      // c15
-      x, 	 // c17a
-  // c17b
-	} // c18
-")).
-Eval vm_compute in ("<<<M1520>>>" ++ check (runes_of_ascii "packet repeatCount {
-    @calculatedFrom(""abc"")
-    zchar[0] MetaDataX `
-    `,
-    string_ @calculatedFrom(""1""),
-    match string_ as msg_type {
-        [65535, 7, 255, ""a	b""] : matchKey,
-        10 : options1,
-        3 : Logon,
-    },
-    // " ++ [27880; 37322]%N ++ runes_of_ascii "
-    packetx `a\`,
-}")).
-Eval vm_compute in ("<<<M1426>>>" ++ check (runes_of_ascii "// top
-packet A {
-    u8 a,// c5a
-}// c6
-
-packet B {
-    // c9a
-    // c9b
-    u16 b,// c12
-}
-
-// c13
-root packet P {
-    // c17
-    u8 K,// c20
-    match K as M {
-        // c25
-        [1, 2] : A,
-        3 : B,
-        7 : A,
-    },
-}")).
-Eval vm_compute in ("<<<M249>>>" ++ check (runes_of_ascii "
-packet
-rootA {
-} // trailing space 
-packet f32a //	t
-{ match
-zchar as zchar
-    {	65535 : f32a , 7 : charz// trailing space 
+Eval vm_compute in ("<<<M301>>>" ++ check (runes_of_ascii "root packet A { repeat uint64 matchKey
+    , char[]
+    Packet , char[
+    007 ] calculatedFrom , }
+options{ Header =
+007 ;
+float =
+    true} packet chars { repeat
+chars ,@rightPad
+    ( '0' ) chars f32a
+    `line1
+line2`
+, int16
+u8x , @tag( 4294967296 ) @rightPad
+( )
+u64 packetx@calculatedFrom(""it's"" )
 ,
-""{,}""
-//	t
-//x
-: Header , 42
-    :a1 // packet A { u8 x, }
-, }
-, }
+@calculatedFrom( ""\n"" ) o@calculatedFrom(""a\""b"" ), Logon	@lengthOf( BodyLength
+    /// triple
+    )
+// a // b
+// packet A { u8 x, }
+,}options {
+    }
 ")).
-Eval vm_compute in ("<<<M1403>>>" ++ check (runes_of_ascii "packet A {
-    match k as n {
-        [
-            007, 66, 9, 12, ""a"",
-            ""bb"", ""d"", ""e"", ""g"", ""h"",
-            ""j"", ""k""
-        ] : B,
-        2 : C,
+Eval vm_compute in ("<<<M349>>>" ++ check (runes_of_ascii "root
+packet body {
+    @lengthOf(
+int
+// @lengthOf(
+//x
+)string tag
+    ,	Pad BodyLength , Z9_ {
+    /// triple
+    u `` , zchar[ 7] u ,
+},uint64 calculatedFrom, }packet
+msg_type {match f32a// " ++ [128512]%N ++ runes_of_ascii " emoji
+as pack
+    { ""// no comment"" : trueish
+, }
+    // trailing space 
+    , @calculatedFrom( // @lengthOf(
+""abc""
+)
+    @leftPad (
+' ') @calculatedFrom( """" //x
+) // c
+matchKey T ,// `tick` ""quote"" 'q'
+}
+")).
+Eval vm_compute in ("<<<M1378>>>" ++ check (runes_of_ascii "
+
+  options {
+LittleEndian	=
+
+    true
+;
+
+} 
+packet
+    Logon {
+u8	x	, 
+}
+	packet
+    Logout {
+    u16
+reason
+
+,  }	root
+    packet
+    Frame { i8 
+Kind ,i8
+
+    Kind2
+,
+match
+	Kind
+    as	Body { 1 
+: Logon , [
+2
+
+    ,	3
+
+    ,
+
+    4  ]
+:
+	Logout,  100
+    :  Logon ,
+}
+
+    ,
+
+match
+
+    Kind2  as
+
+    Trailer
+	{
+
+    0 :	Logout
+	, }, 
+}
+")).
+Eval vm_compute in ("<<<M1643>>>" ++ check (runes_of_ascii "// top
+root packet _x {
+    match Foo as Z9_ {
+        // c8
+        ""a	b"" : Pad,
+    },// c14
+    repeat x `line1
+        line2`,// c18
+    @rightPad(' ')
+    @calculatedFrom(""a\\"")
+    // c25a
+    // c25b
+    metadata MetaDataX,
+    @tag(0)
+    // c31
+    Logon int ``,
+}// c36
+
+options {
+    // c38
+    T = '\x00'
+}// c42a")).
+Eval vm_compute in ("<<<M370>>>" ++ check (runes_of_ascii "  root packet trueish // " ++ [128512]%N ++ runes_of_ascii " emoji
+{ char[] MetaDataX , @leftPad (
+    // trailing space 
+    '0' )match float as
+//x
+// trailing space 
+crc { 0123456789 :// " ++ [27880; 37322]%N ++ runes_of_ascii "
+chars	, ""{,}"" : i8i8,
+}
+, f32a
+    // " ++ [128512]%N ++ runes_of_ascii " emoji
+    f32a `tab	here` ,// " ++ [128512]%N ++ runes_of_ascii " emoji
+@lengthOf( Foo )
+    Packet@calculatedFrom( """ ++ [28040; 24687]%N ++ runes_of_ascii """ ) `it's` , }
+")).
+Eval vm_compute in ("<<<M1314>>>" ++ check (runes_of_ascii "packet MDSnapshotZZ {
+    u8 a,
+}
+packet OrderACK {
+    u16 b,
+}
+packet HTTPServerInfo {
+    string s,
+}
+root packet FIXMsg {
+    u8 KType,
+    MDSnapshotZZ,
+    repeat OrderACK,
+    match KType as Body {
+        1 : HTTPServerInfo,
+        2 : OrderACK,
+    },
+}
+")).
+Eval vm_compute in ("<<<M214>>>" ++ check (runes_of_ascii "MetaData tag {body Packet	, int16 // @lengthOf(
+body // `tick` ""quote"" 'q'
+, f32a uint8x , } packet falsey {
+x { char[ 7 ] lengthOf , char[] o
+    `say ""hi""`
+    // `tick` ""quote"" 'q'
+    ,
+//
+/// triple
+}
+,}
+// `tick` ""quote"" 'q'
+")).
+Eval vm_compute in ("<<<M1855>>>" ++ check (runes_of_ascii "packet A {
+    Inner {
+        u8 x `a
+                    b
+                  c`,
+        Deep {
+            u8 y `a
+                            b
+                          c`,
+        },
     },
 }")).
-Eval vm_compute in ("<<<M453>>>" ++ check (runes_of_ascii "packet uint8x
-{ match pack
-    as msg_type	{
-    0123456789 :	float
-}
-@lengthOf(
-} packet //	t
-a1
-    { } options {packetx
-    = '\x00'	; u128= ""a	b""  ; }
+Eval vm_compute in ("<<<M62>>>" ++ check (runes_of_ascii "packet
+crc { @leftPad //	t
+( ) repeat
+charz float
+    ,} root packet
+options1 {
+@tag( 65535/// triple
+)packetx
+{ u128 , f32 /// triple
+a1 ,
+    } , }
+// trailing space 
+")).
+Eval vm_compute in ("<<<M355>>>" ++ check (runes_of_ascii "options  { As = true
+    MetaDataX =true	}	packet A { repeat calculatedFrom `say ""hi""`
+    ,} MetaData crc { u crc ,
+    uint32 body , i16 stringy
+`u8 x,`
+, }
 ")).
 Eval vm_compute in ("<<<M478>>>" ++ check (runes_of_ascii "packet uint8x
 { match pack
@@ -715,7 +699,7 @@ a1
     { char[ options {packetx
     = '\x00'	; u128= ""a	b""  ; }
 ")).
-Eval vm_compute in ("<<<M506>>>" ++ check (runes_of_ascii "packet uint8x
+Eval vm_compute in ("<<<M531>>>" ++ check (runes_of_ascii "packet uint8x
 { match pack
     as msg_type	{
     0123456789 :	float
@@ -724,22 +708,11 @@ Eval vm_compute in ("<<<M506>>>" ++ check (runes_of_ascii "packet uint8x
 } packet //	t
 a1
     { } options {packetx
-    = '\x00'	; ; u128= ""a	b""  ; }
+    = '\x00'	; u128= ""a	b""  ; } }
 ")).
-Eval vm_compute in ("<<<M412>>>" ++ check (runes_of_ascii "packet uint8x
-{ match as
-    pack msg_type	{
-    0123456789 :	float
-}
-,
-} packet //	t
-a1
-    { } options {packetx
-    = '\x00'	; u128= ""a	b""  ; }
-")).
-Eval vm_compute in ("<<<M425>>>" ++ check (runes_of_ascii "packet uint8x
+Eval vm_compute in ("<<<M428>>>" ++ check (runes_of_ascii "packet uint8x
 { match pack
-    as msg_type	
+    as msg_type	}
     0123456789 :	float
 }
 ,
@@ -748,270 +721,252 @@ a1
     { } options {packetx
     = '\x00'	; u128= ""a	b""  ; }
 ")).
-Eval vm_compute in ("<<<M652>>>" ++ check (runes_of_ascii "// @lengthOf(
+Eval vm_compute in ("<<<M450>>>" ++ check (runes_of_ascii "packet uint8x
+{ match pack
+    as msg_type	{
+    0123456789 :	float
+}
+
+} packet //	t
+a1
+    { } options {packetx
+    = '\x00'	; u128= ""a	b""  ; }
+")).
+Eval vm_compute in ("<<<M493>>>" ++ check (runes_of_ascii "packet uint8x
+{ match pack
+    as msg_type	{
+    0123456789 :	float
+}
+,
+} packet //	t
+a1
+    { } options {f64
+    = '\x00'	; u128= ""a	b""  ; }
+")).
+Eval vm_compute in ("<<<M677>>>" ++ check (runes_of_ascii "// @lengthOf(
 packet i8i8 { u128 o , }
 options { MetaDataX = true;
-    BodyLength =""packet"" x_y_z= 007
-crc crc //x
+    BodyLength =""packet"" x_y_z 007 =
+crc //x
 = ""abc"" ;
     msg_type =
 i16 }")).
-Eval vm_compute in ("<<<M1782>>>" ++ check (runes_of_ascii "
-MetaData leftPad {
-    chars MetaDataX
-	, } packet
-	repeatCount{ char[
-255
-	]uint8x
-    `" ++ [233]%N ++ runes_of_ascii "`
+Eval vm_compute in ("<<<M689>>>" ++ check (runes_of_ascii "// @lengthOf(
+packet i8i8 { u128 o , }
+options { MetaDataX  true;
+    BodyLength =""packet"" x_y_z= 007
+crc //x
+= ""abc"" ;
+    msg_type =
+i16 }")).
+Eval vm_compute in ("<<<M716>>>" ++ check (runes_of_ascii "// @lengthOf(
+packet i8i8 { u128 o , }
+ { MetaDataX = true;
+    BodyLength =""packet"" x_y_z= 007
+crc //x
+= ""abc"" ;
+    msg_type =
+i16 }")).
+Eval vm_compute in ("<<<M1772>>>" ++ check (runes_of_ascii "packet A 
+{	match k
+    as
+n
+	{
+
+[
+1 ,""bb""
+,007
+,""d""
+    ,
+
+    5  ,
+""f""
 ,
+7
+,""h""	,
 
-} MetaData
+9  , ""j"" ,11 ,	""l""  ]
 
-    pack// c
-    	{
-As	Foo
-	,  }
+: B
 
-")).
-Eval vm_compute in ("<<<M1288>>>" ++ check (runes_of_ascii "// top
-root
-    // c0
-packet P
-    // c2
-{ // c3a
-  // c3b
-repeat // c4
-string // c5
-ss , // c7
-repeat u16 ns ,
-    // c11
-} // c12a
-  // c12b
-")).
-Eval vm_compute in ("<<<M1698>>>" ++ check (runes_of_ascii "packet A {
-    match k as n {
-        [
-            ""a"", ""bb"", ""c c"", ""d"", ""e"",
-            ""f"", ""g""
-        ] : B,
-        2 : C,
-    },
-}")).
-Eval vm_compute in ("<<<M1266>>>" ++ check (runes_of_ascii "  packet B
-    {
-u8 a
-	,
-    } 
-root  packet
-
-P {
-u8
-    K  ,
-	match
-    K as Body
-
-{
-1
-
-:  B,
-}  ,
-	u16	L@lengthOf(	Body
-
-) ,
-	}
-")).
-Eval vm_compute in ("<<<M1855>>>" ++ check (runes_of_ascii "packet A {
-    match k as n {
-        [
-            1, 22, 007, 4, 5,
-            66
-        ] : B,
-        2 : C,
-    },
-}")).
-Eval vm_compute in ("<<<M1150>>>" ++ check (runes_of_ascii "MetaData leftPad { chars
-// c
-MetaDataX , } packet repeatCount { char[ 255 ] uint8x `" ++ [233]%N ++ runes_of_ascii "` , } MetaData pack { As Foo , }")).
-Eval vm_compute in ("<<<M1182>>>" ++ check (runes_of_ascii "MetaData leftPad { chars MetaDataX , } packet repeatCount { char[ 255 ] uint8x `" ++ [233]%N ++ runes_of_ascii "` , } MetaData pack {
-// c
-As Foo , }")).
-Eval vm_compute in ("<<<M914>>>" ++ check (runes_of_ascii "packet A {
-  match k as n {
-    [""a"", ""bb"", 007, ""d"", ""e"", 66, ""g"", ""h"", 9, ""j"", ""k"", 12] : B,
-    2 : C
-  },
-}")).
-Eval vm_compute in ("<<<M1278>>>" ++ check (runes_of_ascii "  options{ 
-LittleEndian =	true
-	; } root	packet
-	P {	u16  a ,u32 
-Sum
-@calculatedFrom(
-""CRC32""  )	, }
-
-")).
-Eval vm_compute in ("<<<M1897>>>" ++ check (runes_of_ascii "
-packet
-	Inner
-{ 
-u8
-	a
-, 
-}
-
-    root
-
-packet
-
-P
-    {
-repeat
-	Inner  items  ,
-
-    u8
-x ,
+, 2 :C	}	,
 	}")).
-Eval vm_compute in ("<<<M1267>>>" ++ check (runes_of_ascii "packet B {
-    u8 a,
-    string s,
+Eval vm_compute in ("<<<M171>>>" ++ check (runes_of_ascii "options { Pad=	'\x00' ; u
+= false  repeatCount
+    = false ;// trailing space 
+T
+=// a // b
+""CRC32"" ;
+    a1 = ""it's""}
+")).
+Eval vm_compute in ("<<<M1166>>>" ++ check (runes_of_ascii "MetaData leftPad { chars MetaDataX , } packet repeatCount { char[ 255
+// c
+] uint8x `" ++ [233]%N ++ runes_of_ascii "` , } MetaData pack { As Foo , }")).
+Eval vm_compute in ("<<<M1460>>>" ++ check (runes_of_ascii "
+
+  packet  A{
+
+match k
+
+    as
+	n
+    {
+
+[	1	, ""bb"" ,
+	007
+
+, ""d""
+    ,5, ""f""
+    ] :
+	B
+    ,
+    2:  C
+}  , } ")).
+Eval vm_compute in ("<<<M494>>>" ++ check (runes_of_ascii "packet uint8x
+{ match pack
+    as msg_type	{
+    0123456789 :	float
+}
+,
+} packet //	t
+a1
+    { } options {")).
+Eval vm_compute in ("<<<M1276>>>" ++ check (runes_of_ascii "options {
+    LittleEndian = true;
 }
 root packet P {
-    u16 L @lengthOf(B),
-    B,
-    u8 t,
+    u16 a,
+    u32 Sum @calculatedFrom(""CRC32""),
 }
 ")).
-Eval vm_compute in ("<<<M642>>>" ++ check (runes_of_ascii "
-packet
-    asx {match u128 as lengthOf
-{'1'
-//	t
-// `tick` ""quote"" 'q'
-255 : x ,
-    } ,	}")).
-Eval vm_compute in ("<<<M636>>>" ++ check (runes_of_ascii "
-packet
-    asx {match u128 as lengthOf
-{
-//	t
-// `ti/ck` ""quote"" 'q'
-255 : x ,
-    } ,	}")).
-Eval vm_compute in ("<<<M597>>>" ++ check (runes_of_ascii "
-packet
-    asx {match u128 as lengthOf
-{
-//	t
-// `tick` ""quote"" 'q'
-255  x ,
-    } ,	}")).
-Eval vm_compute in ("<<<M570>>>" ++ check (runes_of_ascii "
-packet
-    asx {{ u128 as lengthOf
-{
-//	t
-// `tick` ""quote"" 'q'
-255 : x ,
-    } ,	}")).
-Eval vm_compute in ("<<<M847>>>" ++ check (runes_of_ascii "packet A {
-  match k as n {
-    [1, 22, ""c c"", 4, 5, ""f"", 7] : B,
-    2 : C
-  },
-}")).
-Eval vm_compute in ("<<<M840>>>" ++ check (runes_of_ascii "packet A {
-  match k as n {
-    [1, 22, 007, 4, 5, 66, 7] : B
-    2 : C
-  },
-}")).
-Eval vm_compute in ("<<<M1724>>>" ++ check (runes_of_ascii "
-
-  // top
-	MetaData 
-	// c0
-u
-	// c1
-	{ 	 // c2a
-
-// c2b
-    } // c3
-")).
-Eval vm_compute in ("<<<M809>>>" ++ check (runes_of_ascii "packet A {
-  match k as n {
-    [1, 22, ""c c"", 4] : B
-    2 : C
-  },
-}")).
-Eval vm_compute in ("<<<M1098>>>" ++ check (runes_of_ascii "packet A {
-    match k as n {
-        1 : B,
-        // c
+Eval vm_compute in ("<<<M950>>>" ++ check (runes_of_ascii "packet A {
+    Inner {
+        u8 x `x
+`,
+        Deep {
+            u8 y `x
+`,
+        },
     },
 }")).
-Eval vm_compute in ("<<<M1388>>>" ++ check (runes_of_ascii "
-// c
-	packet
-
-body
-{ i32
-	f32a 
-`{ , }` ,  } options 
-{
-	}
-")).
-Eval vm_compute in ("<<<M1754>>>" ++ check (runes_of_ascii "packet body {
-    // c
-    i32 f32a `{ , }`,
-}
-
-options {
+Eval vm_compute in ("<<<M199>>>" ++ check (runes_of_ascii "packet falsey { string a1 @lengthOf( packetx ) , }
+packet	int { Header	@lengthOf( stringy)
+, }")).
+Eval vm_compute in ("<<<M869>>>" ++ check (runes_of_ascii "packet A {
+  match k as n {
+    [1, ""bb"", 007, ""d"", 5, ""f"", 7, ""h"", 9] : B,
+    2 : C
+  },
 }")).
-Eval vm_compute in ("<<<M1219>>>" ++ check (runes_of_ascii "packet body { i32 f32a `{ , }` , } options { } // c
-")).
-Eval vm_compute in ("<<<M1085>>>" ++ check (runes_of_ascii "packet A { B { // a
- u8 x, // b
- } // c
- , // d
- }")).
-Eval vm_compute in ("<<<M233>>>" ++ check (runes_of_ascii "MetaData _x { i64 u128	, Packet Header, } 	 ")).
-Eval vm_compute in ("<<<M1887>>>" ++ check (runes_of_ascii "
-
-  root
+Eval vm_compute in ("<<<M858>>>" ++ check (runes_of_ascii "packet A {
+  match k as n {
+    [""a"", 22, ""c c"", 4, ""e"", 66, ""g"", 8] : B,
+    2 : C
+  },
+}")).
+Eval vm_compute in ("<<<M612>>>" ++ check (runes_of_ascii "
 packet
-
-A
-
+    asx {match u128 as lengthOf
 {
-u8	x 
-`a
+//	t
+// `tick` ""quote"" 'q'
+255 : x ,
+     ,	}")).
+Eval vm_compute in ("<<<M969>>>" ++ check (runes_of_ascii "packet A {
+    u32 crc @calculatedFrom(""x\
+y""),
+    @calculatedFrom(""x\
+y"") u8 y,
+}")).
+Eval vm_compute in ("<<<M1532>>>" ++ check (runes_of_ascii "  packet  A{ 
+Inner  {
+    u8 x `a
+b` ,Deep {  u8
+    y`a
+b`	, } ,
 
-b` , }
+    } , } ")).
+Eval vm_compute in ("<<<M1427>>>" ++ check (runes_of_ascii "packet A {
+    B b `a
+    b`,
+    B `a
+    b`,
+    repeat B bs `a
+    b`,
+}")).
+Eval vm_compute in ("<<<M1648>>>" ++ check (runes_of_ascii "packet A {
+    @leftPad()
+    char[4] x,
+    @rightPad()
+    zchar[2] y,
+}")).
+Eval vm_compute in ("<<<M454>>>" ++ check (runes_of_ascii "packet uint8x
+{ match pack
+    as msg_type	{
+    0123456789 :	float
+}")).
+Eval vm_compute in ("<<<M1508>>>" ++ check (runes_of_ascii "
+
+  // c
+	packet
+body
+	{
+
+i32 f32a `{ , }`	, }
+    options
+{	}
+
 ")).
-Eval vm_compute in ("<<<M1090>>>" ++ check (runes_of_ascii "packet A { @tag( // a
- 1 ) u8 x, }")).
-Eval vm_compute in ("<<<M276>>>" ++ check (runes_of_ascii "MetaData repeatCount { }
+Eval vm_compute in ("<<<M88>>>" ++ check (runes_of_ascii "options// @lengthOf(
+{a1 = 65535
+// `tick` ""quote"" 'q'
+// c
+}")).
+Eval vm_compute in ("<<<M1088>>>" ++ check (runes_of_ascii "packet A { @tag(1) // a
+ @leftPad('0') // b
+ char[4] x, }")).
+Eval vm_compute in ("<<<M1200>>>" ++ check (runes_of_ascii "packet
+// c
+body { i32 f32a `{ , }` , } options { }")).
+Eval vm_compute in ("<<<M1073>>>" ++ check (runes_of_ascii "packet A {} packet B {} MetaData M {} options {}")).
+Eval vm_compute in ("<<<M363>>>" ++ check (runes_of_ascii "MetaData
+    // @lengthOf(
+    tag {
+    }")).
+Eval vm_compute in ("<<<M971>>>" ++ check (runes_of_ascii "options {
+    a = ""\
+"";
+    b = ""\
+""
+}")).
+Eval vm_compute in ("<<<M922>>>" ++ check (runes_of_ascii "root packet A {
+    u8 x `a
+b`,
+}")).
+Eval vm_compute in ("<<<M993>>>" ++ check (runes_of_ascii "packet A {
+ u8 x `d" ++ [133]%N ++ runes_of_ascii "`, // c" ++ [133]%N ++ runes_of_ascii "
+}")).
+Eval vm_compute in ("<<<M947>>>" ++ check (runes_of_ascii "packet A {
+    u8 x `x
+`,
+}")).
+Eval vm_compute in ("<<<M414>>>" ++ check (runes_of_ascii "packet uint8x
+{ match")).
+Eval vm_compute in ("<<<M59>>>" ++ check (runes_of_ascii "packet
+int {
+}
 //	t
 ")).
-Eval vm_compute in ("<<<M270>>>" ++ check (runes_of_ascii "  root packet msg_type
-{
-}
-")).
-Eval vm_compute in ("<<<M1878>>>" ++ check (runes_of_ascii "
-options	{  // a // b
-}")).
-Eval vm_compute in ("<<<M1108>>>" ++ check (runes_of_ascii "MetaData tag
-// c
-{ }")).
-Eval vm_compute in ("<<<M103>>>" ++ check (runes_of_ascii "packet packetx	{ }")).
-Eval vm_compute in ("<<<M1047>>>" ++ check (runes_of_ascii "// c" ++ [8203]%N ++ runes_of_ascii "
+Eval vm_compute in ("<<<M982>>>" ++ check (runes_of_ascii "// c" ++ [12288]%N ++ runes_of_ascii "
 packet A {
 }")).
-Eval vm_compute in ("<<<M1049>>>" ++ check (runes_of_ascii "packet A {
-}// c" ++ [65279]%N)).
-Eval vm_compute in ("<<<M319>>>" ++ check (runes_of_ascii "packet o
-{
-}
+Eval vm_compute in ("<<<M1083>>>" ++ check (runes_of_ascii "packet A { // a
+ }")).
+Eval vm_compute in ("<<<M1229>>>" ++ check (runes_of_ascii "packet x
+// c
+{ }")).
+Eval vm_compute in ("<<<M3>>>" ++ check (runes_of_ascii "options {}
+
 ")).
 Eval vm_compute in ("<<<M1020>>>" ++ check (runes_of_ascii "// c" ++ [8239]%N)).
+Eval vm_compute in ("<<<M72>>>" ++ check (@nil rune)).
